@@ -1,27 +1,39 @@
 """C15 — big map operations and lazy diffs agree with a layered dictionary model.
 
-Every case is one call of the real `Interpreter.run_code` on a generated contract whose code replays a history of
-GET / MEM / UPDATE / GET_AND_UPDATE on one big_map and conses every observation onto a list kept in the storage.
-The on-chain contents are served by an in-process stub shell (what `ExecutionContext.get_big_map_value` walks:
-`shell.blocks[block_id].context.big_maps[ptr][key_hash]()`, `RpcError` = key absent).  Three ways a big map enters
-the code: `fresh` (a literal in the storage: temporary id, diff action `alloc`), `onchain` (an id in the storage:
-registered, action `update`), `copy` (an id passed as *parameter*: registered as a copy, action `copy`).
+Every case is ONE call of the real `Interpreter.run_code` on a generated contract.  The contract spreads the big maps of
+the parameter / storage over the stack ("slots"), replays a history of GET / MEM / UPDATE / GET_AND_UPDATE addressed to
+the slots (and DUPs of a slot, after which the two copies diverge), conses every observation onto a list kept in the
+storage and finally stores the chosen slots back.  On-chain contents are served by an in-process stub shell (what
+`ExecutionContext.get_big_map_value` walks: `shell.blocks[block_id].context.big_maps[ptr][key_hash]()`, `RpcError` = key
+absent).  A big map enters as a literal in the storage (temporary id, diff action `alloc`), as an id in the storage
+(registered, `update`), or as an id in the PARAMETER (registered as a copy, `copy`); the storage holds one or two big maps.
 
-Compared with the Lean mirror: every observation, the diff entry (id, action, updates sorted by key) and the id left in
-the storage.  Property oracle (independent of the mirror): a plain Python dict started from the on-chain contents /
-the literal; every observation must equal the dict's, the emitted updates applied in order to the on-chain contents
-must give exactly the final dict, and every update must carry base58 `expr`(Blake2b-256(PACK key)) recomputed here
-with hashlib and a local base58/zarith encoder."""
+Keys: every comparable type (int, nat, string, bytes, pair, option, or, address, key_hash, key, timestamp, nested …) with a
+universe of 3–6 near-equal keys from harness/gen_c03.py; values: nat, string, bytes, bool, unit, option, list, set, map —
+including the falsy ones ("", 0x, False, {}, None inside Some).
+
+Compared with the Lean mirror (lean/Driver/C15.lean — `Impl.BigMap.*` on typed keys with the C03 mirrors of `__eq__` /
+`__lt__`): every observation, every diff entry (id, action, updates) and the ids left in the storage.
+Property oracle (independent of the mirror): one plain Python dict per slot, started from the on-chain contents / the
+literal; every observation must equal the dict's; the updates of each emitted entry, applied in order to the on-chain
+contents of its source, must give exactly the final dict of the stored slot; every update must carry base58
+`expr`(Blake2b-256(0x05 ‖ legacy-packed key)) recomputed here with hashlib and a local Micheline forger (the packed
+bytes of every key are also compared, with this forger and with the mirror `Impl.BigMap.packLegacy`); no key twice;
+pytezos' own reading of the emitted diff (`merge_lazy_diff`) must show the same updates."""
+import functools
 import hashlib
 import itertools
 import json
 
+from harness import gen_c03 as G
 from translator import extract
 
 PROP = 'C15'
 
-# ---------------------------------------------------------------- independent PACK / script-expression hash
+# ---------------------------------------------------------------- independent legacy PACK / script-expression hash
 B58 = '123456789ABCDEFGHJKLMNPQRSTUVWXYZabcdefghijkmnopqrstuvwxyz'
+# Michelson data primitives (tags of the binary Micheline encoding, from the protocol's primitive table)
+D_FALSE, D_LEFT, D_NONE, D_PAIR, D_RIGHT, D_SOME, D_TRUE, D_UNIT = 0x03, 0x05, 0x06, 0x07, 0x08, 0x09, 0x0A, 0x0B
 
 
 def b58check(payload):
@@ -46,30 +58,111 @@ def zarith(n):
     return bytes(out)
 
 
-def pack_key(kt, k):
-    if kt in ('nat', 'int'):
-        return b'\x05\x00' + zarith(k)
-    raw = k.encode()
-    return b'\x05\x01' + len(raw).to_bytes(4, 'big') + raw
+def _m_bytes(raw):
+    return b'\x0a' + len(raw).to_bytes(4, 'big') + raw
 
 
-def expr_hash(kt, k):
-    return b58check(bytes([13, 44, 64, 27]) + hashlib.blake2b(pack_key(kt, k), digest_size=32).digest())
+def forge_key(v):
+    """binary Micheline of the OPTIMIZED form of a comparable value, pairs nested (`Pair a (Pair b c)`, never the
+    sequence form) — what Tezos hashes for a big map key"""
+    k = v[0]
+    if k == 'unit':
+        return bytes([3, D_UNIT])
+    if k == 'bool':
+        return bytes([3, D_TRUE if v[1] else D_FALSE])
+    if k == 'int':                                   # int, nat, mutez, timestamp (seconds)
+        return b'\x00' + zarith(v[1])
+    if k == 'str':
+        raw = v[1].encode()
+        return b'\x01' + len(raw).to_bytes(4, 'big') + raw
+    if k == 'bytes':
+        return _m_bytes(v[1])
+    if k == 'kh':                                    # tag of the curve, 20-byte hash
+        return _m_bytes(bytes([v[1]]) + v[2])
+    if k == 'addr':
+        if v[1] < 4:
+            raw = b'\x00' + bytes([v[1]]) + v[2]       # implicit: 00, curve tag, hash
+        else:
+            raw = bytes([1 if v[1] == 4 else 3]) + v[2] + b'\x00'     # originated 01 / smart rollup 03, hash, padding
+        ep = '' if v[3] == 'default' else v[3]
+        return _m_bytes(raw + ep.encode())
+    if k == 'key':
+        return _m_bytes(bytes([v[1]]) + v[2])
+    if k == 'sig':
+        return _m_bytes(v[2])
+    if k == 'cid':
+        return _m_bytes(v[1])
+    if k == 'none':
+        return bytes([3, D_NONE])
+    if k == 'some':
+        return bytes([5, D_SOME]) + forge_key(v[1])
+    if k == 'left':
+        return bytes([5, D_LEFT]) + forge_key(v[1])
+    if k == 'right':
+        return bytes([5, D_RIGHT]) + forge_key(v[1])
+    if k == 'pair':
+        return bytes([7, D_PAIR]) + forge_key(v[1]) + forge_key(v[2])
+    raise ValueError(v)
 
 
-def key_mich(kt, k):
-    return {'string': k} if kt == 'string' else {'int': str(k)}
+@functools.lru_cache(maxsize=None)
+def expr_hash(v):
+    return b58check(bytes([13, 44, 64, 27]) + hashlib.blake2b(b'\x05' + forge_key(v), digest_size=32).digest())
 
 
-UNIVERSES = {
-    'nat': [0, 1, 2, 7, 63, 64, 127, 128, 255, 256, 8191, 8192, 2 ** 32, 2 ** 64, 2 ** 70 + 1],
-    'int': [-2 ** 65, -8193, -129, -128, -65, -64, -63, -2, -1, 0, 1, 2, 63, 64, 127, 128, 2 ** 64],
-    'string': ['', 'A', 'B', 'Z', 'a', 'aa', 'ab', 'b', 'ba', 'hello', 'z', '~'],
+# ---------------------------------------------------------------- key types, value kinds
+KEY_TYPES = [
+    'nat', 'nat', 'int', 'string', 'bytes', 'timestamp', 'address', 'key_hash', 'key', 'mutez', 'bool', 'chain_id', 'signature',
+    ('pair', 'int', 'int'), ('pair', 'string', 'bytes'), ('pair', 'nat', ('pair', 'nat', 'nat')), ('pair', ('pair', 'int', 'string'), 'nat'),
+    ('pair', 'address', 'nat'), ('pair', ('pair', 'nat', 'nat'), ('pair', 'nat', 'nat')),
+    ('pair', 'nat', ('pair', 'string', ('pair', 'bytes', 'int'))), ('pair', 'int', ('pair', 'nat', ('pair', ('option', 'nat'), ('pair', 'bool', 'string')))),
+    ('option', 'int'), ('option', ('pair', 'nat', 'string')), ('or', 'int', 'string'), ('or', ('pair', 'int', 'int'), ('option', 'string')),
+    ('pair', ('option', ('or', 'int', 'string')), ('pair', 'address', 'nat')), ('or', 'key_hash', 'address'), ('pair', 'timestamp', 'key_hash'),
+    ('option', 'unit'), ('or', 'unit', 'bool'),
+]
+NAT = {'prim': 'nat'}
+# value kinds: (type, literals by code or None for nat = the code itself); code 0 is the value Python treats as falsy
+VALUE_KINDS = {
+    'nat': (NAT, None),
+    'string': ({'prim': 'string'}, [{'string': ''}, {'string': 'a'}, {'string': 'b'}, {'string': 'ab'}]),
+    'bytes': ({'prim': 'bytes'}, [{'bytes': ''}, {'bytes': '00'}, {'bytes': '01'}, {'bytes': 'ff00'}]),
+    'bool': ({'prim': 'bool'}, [{'prim': 'False'}, {'prim': 'True'}]),
+    'unit': ({'prim': 'unit'}, [{'prim': 'Unit'}]),
+    'option nat': ({'prim': 'option', 'args': [NAT]}, [{'prim': 'None'}, {'prim': 'Some', 'args': [{'int': '0'}]}, {'prim': 'Some', 'args': [{'int': '5'}]}]),
+    'list int': ({'prim': 'list', 'args': [{'prim': 'int'}]}, [[], [{'int': '0'}], [{'int': '1'}, {'int': '-2'}]]),
+    'set nat': ({'prim': 'set', 'args': [NAT]}, [[], [{'int': '0'}], [{'int': '1'}, {'int': '2'}]]),
+    'map nat nat': ({'prim': 'map', 'args': [NAT, NAT]}, [[], [{'prim': 'Elt', 'args': [{'int': '0'}, {'int': '0'}]}],
+                                                        [{'prim': 'Elt', 'args': [{'int': '1'}, {'int': '2'}]}, {'prim': 'Elt', 'args': [{'int': '3'}, {'int': '4'}]}]]),
 }
 
 
-def tezos_sorted(kt, keys):
-    return sorted(keys, key=(lambda s: s.encode()) if kt == 'string' else (lambda n: n))
+def venc(vkind, code):
+    lits = VALUE_KINDS[vkind][1]
+    return {'int': str(code)} if lits is None else lits[code]
+
+
+def vdec(vkind, expr):
+    lits = VALUE_KINDS[vkind][1]
+    if lits is None:
+        return int(expr['int']) if isinstance(expr, dict) and 'int' in expr else '?'
+    for i, lit in enumerate(lits):
+        if lit == expr:
+            return i
+    return '?'
+
+
+def gen_keys(rng, t, n):
+    """3–6 distinct near-equal keys of type t, ascending in the (independent) Tezos order of gen_c03"""
+    vals = [G.normalise_value(G.gen_value(rng, t))]
+    tries = 0
+    while len(vals) < n and tries < 60:
+        tries += 1
+        r = rng.random()
+        v = G.near(rng, t, rng.choice(vals)) if r < 0.8 else G.gen_value(rng, t)
+        v = G.normalise_value(v)
+        if not any(G.tz_eq(v, w) for w in vals):
+            vals.append(v)
+    return sorted(vals, key=functools.cmp_to_key(G.tz_cmp))
 
 
 # ---------------------------------------------------------------- stub shell
@@ -111,105 +204,197 @@ def P(prim, *args):
     return {'prim': prim, 'args': list(args)} if args else {'prim': prim}
 
 
-RECORD = [P('DIG', {'int': '2'}), P('SWAP'), P('CONS'), P('SWAP')]        # [obs, bm, lst] -> [bm, obs :: lst]
+def n_init(case):
+    return (1 if case['par'] is not None else 0) + len(case['st'])
 
 
-def opt_val(v):
-    return P('NONE', P('nat')) if v is None else None
+def roots(case):
+    """per slot (after all events): index of the initial slot it descends from"""
+    r = list(range(n_init(case)))
+    for e in case['ev']:
+        if e[0] == 'd':
+            r.append(r[e[1]])
+    return r
 
 
-def compile_ops(kt, keys, ops):
-    code = []
-    for op in ops:
-        kind, k = op[0], key_mich(kt, keys[op[1]])
-        push_k = P('PUSH', P(kt), k)
-        if kind == 'g':
-            code += [P('DUP'), push_k, P('GET')] + RECORD
-        elif kind == 'm':
-            code += [P('DUP'), push_k, P('MEM'),
-                     P('IF', [P('PUSH', P('option', P('nat')), P('Some', {'int': '1'}))], [P('NONE', P('nat'))])] + RECORD
-        else:
-            v = op[2]
-            code += [P('NONE', P('nat'))] if v is None else [P('PUSH', P('nat'), {'int': str(v)}), P('SOME')]
-            code += [push_k, P('UPDATE')] if kind == 'u' else [push_k, P('GET_AND_UPDATE')] + RECORD
-    return code
+def init_kind(case, i):
+    """('par', id) | ('id', id) | ('lit', items) of initial slot i"""
+    if case['par'] is not None:
+        if i == 0:
+            return ('par', case['par'])
+        i -= 1
+    return case['st'][i]
 
 
 def build(case):
     """(script, parameter, storage, shell)"""
-    kt, keys, mode, ptr = case['kt'], case['keys'], case['mode'], case['ptr']
-    bm_t = P('big_map', P(kt), P('nat'))
-    st_t = P('pair', bm_t, P('list', P('option', P('nat'))))
-    if mode == 'copy':
-        head = [P('UNPAIR'), P('SWAP'), P('CDR'), P('SWAP')]
-        par_t, par, st = bm_t, {'int': str(ptr)}, P('Pair', [], [])
+    kt, vt = G.ty_expr(case['t']), VALUE_KINDS[case['vkind']][0]
+    keys = [G.to_micheline(k) for k in case['keys']]
+    bm_t = P('big_map', kt, vt)
+    obs_t = P('or', P('option', vt), P('bool'))
+    lst_t = P('list', obs_t)
+    nst = len(case['st'])
+    st_t = P('pair', bm_t, lst_t) if nst == 1 else P('pair', bm_t, P('pair', bm_t, lst_t))
+
+    def field(s):
+        return {'int': str(s[1])} if s[0] == 'id' else [P('Elt', keys[i], venc(case['vkind'], v)) for i, v in s[1]]
+
+    fields = [field(s) for s in case['st']]
+    st = P('Pair', fields[0], []) if nst == 1 else P('Pair', fields[0], P('Pair', fields[1], []))
+    unpack = [P('UNPAIR')] if nst == 1 else [P('UNPAIR'), P('DIP', [P('UNPAIR')])]
+    if case['par'] is not None:
+        par_t, par = bm_t, {'int': str(case['par'])}
+        code = [P('UNPAIR'), P('DIP', unpack)]
     else:
-        head = [P('CDR'), P('UNPAIR')]
         par_t, par = P('unit'), P('Unit')
-        if mode == 'onchain':
-            st = P('Pair', {'int': str(ptr)}, [])
+        code = [P('CDR')] + unpack
+    order = list(range(n_init(case)))                   # slot numbers in stack order (the list is below them)
+
+    def dig(i):
+        return [P('DIG', {'int': str(i)})] if i else []
+
+    def dug(i):
+        return [P('DUG', {'int': str(i)})] if i else []
+
+    def record():                                       # [obs, bm, others…, lst] -> [bm, others…, obs :: lst]
+        n = len(order)
+        return [P('DIG', {'int': str(n + 1)}), P('SWAP'), P('CONS')] + dug(n)
+
+    for e in case['ev']:
+        pos = order.index(e[1])
+        if e[0] == 'd':
+            code += dig(pos) + [P('DUP'), P('SWAP')] + dug(pos + 1)     # [dup, s0 … s_pos …]: the duplicate is the new slot
+            order.insert(0, len(order))
+            continue
+        push_k = P('PUSH', kt, keys[e[2]])
+        code += dig(pos)
+        if e[0] == 'g':
+            code += [P('DUP'), push_k, P('GET'), P('LEFT', P('bool'))] + record()
+        elif e[0] == 'm':
+            code += [P('DUP'), push_k, P('MEM'), P('RIGHT', P('option', vt))] + record()
         else:
-            st = P('Pair', [P('Elt', key_mich(kt, keys[i]), {'int': str(v)}) for i, v in case['lit']], [])
-    code = head + compile_ops(kt, keys, case['ops']) + [P('PAIR'), P('NIL', P('operation')), P('PAIR')]
+            code += [P('NONE', vt)] if e[3] is None else [P('PUSH', vt, venc(case['vkind'], e[3])), P('SOME')]
+            code += [push_k, P('UPDATE')] if e[0] == 'u' else [push_k, P('GET_AND_UPDATE'), P('LEFT', P('bool'))] + record()
+        code += dug(pos)
+    for s in list(order):                               # drop what is not stored
+        if s not in case['store']:
+            code += dig(order.index(s)) + [P('DROP')]
+            order.remove(s)
+    for s in reversed(case['store']):                   # [a, b, lst]
+        pos = order.index(s)
+        code += dig(pos)
+        order.remove(s)
+        order.insert(0, s)
+    code += ([P('PAIR')] if nst == 1 else [P('DIP', [P('PAIR')]), P('PAIR')]) + [P('NIL', P('operation')), P('PAIR')]
     script = [P('parameter', par_t), P('storage', st_t), P('code', code)]
-    content = {(ptr, expr_hash(kt, keys[i])): {'int': str(v)} for i, v in case['chain']} if mode != 'fresh' else {}
+    content = {(ptr, expr_hash(case['keys'][i])): venc(case['vkind'], v) for ptr, kvs in case['chain'].items() for i, v in kvs}
     return script, par, st, StubShell(content)
+
+
+def _uncomb(expr, n):
+    """components of a right comb of n elements in any of the renderings (nested Pair / flat Pair / sequence)"""
+    out = []
+    while len(out) < n - 1:
+        if isinstance(expr, list) and len(expr) == n - len(out):
+            return out + list(expr)
+        args = expr['args']
+        if len(args) == n - len(out):
+            return out + list(args)
+        out.append(args[0])
+        expr = args[1] if len(args) == 2 else {'prim': 'Pair', 'args': args[1:]}
+    return out + [expr]
+
+
+_key_cls = {}
+
+
+def _key_index(case, raws, expr):
+    from pytezos.michelson.types.base import MichelsonType
+    from harness import real_c03 as R
+    tk = json.dumps(G.ty_expr(case['t']), sort_keys=True)
+    if tk not in _key_cls:
+        _key_cls[tk] = MichelsonType.match(G.ty_expr(case['t']))
+    try:
+        return R._index_of(R.raw_of_obj(_key_cls[tk].from_micheline_value(expr)), raws)
+    except Exception:
+        return -1
 
 
 def run_impl(case):
     from pytezos.michelson.repl import Interpreter
+    from pytezos.michelson.types.base import MichelsonType
+    from harness import real_c03 as R
     script, par, st, shell = build(case)
     ops_, storage, lazy_diff, stdout, err = Interpreter.run_code(parameter=par, storage=st, script=script, shell=shell)
     if err is not None:
-        return {'error': (stdout[-1] if stdout else type(err).__name__)[:120], 'shell': shell}
-    kt, keys = case['kt'], case['keys']
-    obs_raw = list(reversed(storage['args'][1]))
-    obs, it = [], iter(obs_raw)
-    for op in case['ops']:
-        if op[0] == 'u':
-            obs.append('U')
-            continue
-        o = next(it, None)
-        if o is None:
-            obs.append('?')
-        elif op[0] == 'm':
-            obs.append('T' if o.get('prim') == 'Some' else 'F')
+        return {'error': (stdout[-1] if stdout else type(err).__name__)[:160], 'shell': shell}
+    nst = len(case['st'])
+    comps = _uncomb(storage, nst + 1)
+    obs = []
+    for o in reversed(comps[-1]):
+        inner = o['args'][0]
+        if o.get('prim') == 'Right':
+            obs.append('T' if inner.get('prim') == 'True' else 'F')
+        elif inner.get('prim') == 'None':
+            obs.append('N')
         else:
-            obs.append('N' if o.get('prim') == 'None' else 'S' + o['args'][0]['int'])
-    idx = {json.dumps(key_mich(kt, k), sort_keys=True): i for i, k in enumerate(keys)}
-    entries = [e for e in lazy_diff if e.get('kind') == 'big_map']
+            obs.append(f"S{vdec(case['vkind'], inner['args'][0])}")
+    raws = [R.raw_of_abs(case['t'], k) for k in case['keys']]
     diffs = []
-    for e in entries:
-        ups = []
-        for u in e['diff'].get('updates', []):
-            ups.append((idx.get(json.dumps(u['key'], sort_keys=True), -1), int(u['value']['int']) if 'value' in u else None,
-                        u.get('key_hash')))
+    for e in lazy_diff:
+        if e.get('kind') != 'big_map':
+            continue
+        ups = [(_key_index(case, raws, u['key']), vdec(case['vkind'], u['value']) if 'value' in u else None, u.get('key_hash'))
+               for u in e['diff'].get('updates', [])]
         diffs.append({'id': e['id'], 'action': e['diff']['action'], 'updates': ups,
                       'types': (e['diff'].get('key_type'), e['diff'].get('value_type'))})
-    return {'error': None, 'obs': obs, 'diffs': diffs, 'ptr': storage['args'][0].get('int'), 'shell': shell}
+    # pytezos' own reading of what it emitted: storage + lazy diff -> big maps with the updates as local layer
+    merged = []
+    try:
+        item = MichelsonType.match(script[1]['args'][0]).from_micheline_value(storage).merge_lazy_diff(lazy_diff)
+        for _ in range(nst):
+            bm, item = item.items[0], item.items[1]
+            merged.append(sorted([(R._index_of(R.raw_of_obj(k), raws), vdec(case['vkind'], v.to_micheline_value())) for k, v in bm.items]
+                                 + [(R._index_of(R.raw_of_obj(k), raws), None) for k in bm.removed_keys], key=lambda x: (x[0], x[1] is None)))
+    except Exception as ex:        # noqa: BLE001 — reported by the oracle
+        merged = f'{type(ex).__name__}: {ex}'[:120]
+    return {'error': None, 'obs': obs, 'diffs': diffs, 'ptrs': [c.get('int') if isinstance(c, dict) else '?' for c in comps[:nst]],
+            'merged': merged, 'shell': shell}
+
+
+def _show_updates(ups):
+    valued = [f'{k}={v}' for k, v, _ in ups if v is not None]
+    removed = sorted(k for k, v, _ in ups if v is None)            # set-derived order: canonicalised
+    return ' '.join(valued + [f'{k}=-' for k in removed])
 
 
 def impl_line(res):
     if res['error'] is not None:
         return 'rejected'
-    if len(res['diffs']) != 1:
-        return f"obs {' '.join(res['obs'])} ; diffs {len(res['diffs'])}"
-    d = res['diffs'][0]
-    ups = sorted(d['updates'], key=lambda u: u[0])           # stable: canonical order for set-derived parts
-    return (f"obs {' '.join(res['obs'])} ; diff {d['id']} {d['action']} "
-            + ' '.join(f'{k}={"-" if v is None else v}' for k, v, _ in ups) + f" ; state {res['ptr']}")
+    return (f"obs {' '.join(res['obs'])} ; "
+            + ' ; '.join(f"diff {d['id']} {d['action']} {_show_updates(d['updates'])}" for d in res['diffs'])
+            + f" ; state {' '.join(str(p) for p in res['ptrs'])}")
+
+
+def _ev_tok(e):
+    if e[0] == 'd':
+        return f'd{e[1]}'
+    if e[0] in 'gm':
+        return f'{e[0]}{e[1]}.{e[2]}'
+    return f'{e[0]}{e[1]}.{e[2]}={"-" if e[3] is None else e[3]}'
 
 
 def model_line(case):
-    kv = lambda xs: ' '.join(f'{k}={v}' for k, v in xs)
-    ops = ' '.join(f'{o[0]}{o[1]}' if o[0] in 'gm' else f'{o[0]}{o[1]}={"-" if o[2] is None else o[2]}' for o in case['ops'])
-    return f"{case['mode']} {case['ptr']} | {kv(case['chain']) if case['mode'] != 'fresh' else ''} | {kv(case['lit']) if case['mode'] == 'fresh' else ''} | {ops}"
+    head = G.ty_tokens(case['t']) + [str(len(case['keys']))] + [x for k in case['keys'] for x in G.val_tokens(k)]
+    inits = ([f"P{case['par']}"] if case['par'] is not None else []) + [
+        f'S{s[1]}' if s[0] == 'id' else 'L' + ','.join(f'{i}:{v}' for i, v in s[1]) for s in case['st']]
+    chain = [f'{ptr}:{i}={v}' for ptr, kvs in sorted(case['chain'].items()) for i, v in kvs]
+    return ' | '.join(' '.join(x) for x in (head, inits, chain, [_ev_tok(e) for e in case['ev']], [str(s) for s in case['store']]))
 
 
 # ---------------------------------------------------------------- the property's own predicate
 def literal_ok(case):
-    ks = [i for i, _ in case['lit']]
-    return case['mode'] != 'fresh' or all(a < b for a, b in zip(ks, ks[1:]))
+    return all(all(a < b for a, b in zip([i for i, _ in s[1]], [i for i, _ in s[1]][1:])) for s in case['st'] if s[0] == 'lit')
 
 
 def oracle(case, res):
@@ -218,52 +403,83 @@ def oracle(case, res):
         return None if res['error'] is not None else 'unsorted / duplicate literal accepted'
     if res['error'] is not None:
         return f"history raised: {res['error']}"
-    base = dict(case['chain']) if case['mode'] != 'fresh' else {}
-    d = dict(base) if case['mode'] != 'fresh' else dict(case['lit'])
-    for n, (op, got) in enumerate(zip(case['ops'], res['obs'])):
-        k = op[1]
-        if op[0] == 'g':
-            want = 'N' if k not in d else f'S{d[k]}'
-        elif op[0] == 'm':
+    base, dicts = [], []
+    for i in range(n_init(case)):
+        kind = init_kind(case, i)
+        b = dict(case['chain'].get(kind[1], [])) if kind[0] != 'lit' else {}
+        base.append(b)
+        dicts.append(dict(b) if kind[0] != 'lit' else dict(kind[1]))
+    root = list(range(n_init(case)))
+    it = iter(res['obs'])
+    for n, e in enumerate(case['ev']):
+        if e[0] == 'd':
+            dicts.append(dict(dicts[e[1]]))
+            root.append(root[e[1]])
+            continue
+        d, k = dicts[e[1]], e[2]
+        want = None
+        if e[0] == 'm':
             want = 'T' if k in d else 'F'
-        elif op[0] == 'a':
+        elif e[0] in 'ga':
             want = 'N' if k not in d else f'S{d[k]}'
-        else:
-            want = 'U'
-        if op[0] in 'ua':
-            if op[2] is None:
+        if e[0] in 'ua':
+            if e[3] is None:
                 d.pop(k, None)
             else:
-                d[k] = op[2]
-        if got != want:
-            return f'op #{n} {op}: observed {got}, dictionary says {want}'
-    if len(res['diffs']) != 1:
-        return f"{len(res['diffs'])} big_map entries in lazy_diff, expected 1"
-    e = res['diffs'][0]
-    want_id, want_action = {'fresh': ('0', 'alloc'), 'onchain': (str(case['ptr']), 'update'), 'copy': ('0', 'copy')}[case['mode']]
-    if (e['id'], e['action']) != (want_id, want_action) or res['ptr'] != want_id:
-        return f"diff id/action {e['id']}/{e['action']}, storage id {res['ptr']}; expected {want_id}/{want_action}"
-    if e['action'] == 'alloc' and e['types'] != ({'prim': case['kt']}, {'prim': 'nat'}):
-        return f"alloc entry carries types {e['types']}"
-    applied = dict(base)
-    seen = set()
-    for k, v, h in e['updates']:
-        if k < 0:
-            return 'diff entry with a key outside the universe'
-        if h != expr_hash(case['kt'], case['keys'][k]):
-            return f'key_hash of key #{k} is {h}, expected {expr_hash(case["kt"], case["keys"][k])}'
-        if k in seen:
-            return f'diff lists key #{k} twice: {[(a, b) for a, b, _ in e["updates"]]}'
-        seen.add(k)
-        if v is None:
-            applied.pop(k, None)
+                d[k] = e[3]
+        if want is not None:
+            got = next(it, '(missing)')
+            if got != want:
+                return f'event #{n} {_ev_tok(e)}: observed {got}, dictionary says {want}'
+    if next(it, None) is not None:
+        return 'more observations than events'
+    if len(res['diffs']) != len(case['store']):
+        return f"{len(res['diffs'])} big_map entries in lazy_diff, expected {len(case['store'])}"
+    next_id = 0
+    for pos, (s, e, ptr) in enumerate(zip(case['store'], res['diffs'], res['ptrs'])):
+        kind = init_kind(case, root[s])
+        if kind[0] == 'id':
+            want_id, want_action = str(kind[1]), 'update'
         else:
-            applied[k] = v
-    if applied != d:
-        return f'diff applied to the on-chain contents gives {sorted(applied.items())}, final dictionary is {sorted(d.items())}'
-    for ptr, _ in res['shell'].queries:
-        if ptr != case['ptr']:
-            return f'node asked for big_map {ptr}, the map is backed by {case["ptr"]}'
+            want_id, want_action = str(next_id), ('alloc' if kind[0] == 'lit' else 'copy')
+            next_id += 1
+        if (e['id'], e['action']) != (want_id, want_action) or ptr != want_id:
+            return f"stored slot {s}: diff id/action {e['id']}/{e['action']}, storage id {ptr}; expected {want_id}/{want_action}"
+        if e['action'] == 'alloc' and e['types'] != (G.ty_expr(case['t']), VALUE_KINDS[case['vkind']][0]):
+            return f"alloc entry carries types {e['types']}"
+        applied = dict(base[root[s]])
+        seen = set()
+        by_hash = sorted(e['updates'], key=lambda u: str(u[2]))
+        for k, v, h in by_hash:
+            if k < 0:
+                return f'stored slot {s}: diff entry with a key outside the universe'
+            if v == '?':
+                return f'stored slot {s}: diff value of key #{k} is not a value that was written'
+            if h != expr_hash(case['keys'][k]):
+                return f'key_hash of key #{k} {G.to_text(case["keys"][k])} is {h}, expected {expr_hash(case["keys"][k])}'
+            if k in seen:
+                return f'stored slot {s}: diff lists key #{k} twice: {[(a, b) for a, b, _ in e["updates"]]}'
+            seen.add(k)
+        for k, v, h in e['updates']:
+            if v is None:
+                applied.pop(k, None)
+            else:
+                applied[k] = v
+        if applied != dicts[s]:
+            return (f'stored slot {s}: diff applied to the on-chain contents gives {sorted(applied.items())}, '
+                    f'final dictionary is {sorted(dicts[s].items())}')
+        want_merged = sorted([(k, v) for k, v, _ in e['updates']], key=lambda x: (x[0], x[1] is None))
+        if isinstance(res['merged'], str):
+            return f"merge_lazy_diff of the emitted diff raised {res['merged']}"
+        if res['merged'][pos] != want_merged:
+            return (f'stored slot {s}: merge_lazy_diff reads the emitted updates {want_merged} back as {res["merged"][pos]}')
+    hashes = {expr_hash(k) for k in case['keys']}
+    backing = {str(init_kind(case, i)[1]) for i in range(n_init(case)) if init_kind(case, i)[0] != 'lit'}
+    for ptr, h in res['shell'].queries:
+        if str(ptr) not in backing:
+            return f'node asked for big_map {ptr}, the maps are backed by {sorted(backing)}'
+        if h not in hashes:
+            return f'node asked for key hash {h}, which is the hash of no key of the run'
     return None
 
 
@@ -271,17 +487,47 @@ def fails(case):
     return oracle(case, run_impl(case))
 
 
+def _drop_dup(case, n):
+    """case without the n-th event (a DUP) — None when the duplicate is used or stored"""
+    new_slot = n_init(case) + sum(1 for e in case['ev'][:n] if e[0] == 'd')
+    if new_slot in case['store'] or any(e[1] == new_slot for e in case['ev']):
+        return None
+    ren = lambda s: s - 1 if s > new_slot else s
+    ev = [(e[0], ren(e[1])) + tuple(e[2:]) for i, e in enumerate(case['ev']) if i != n]
+    return {**case, 'ev': ev, 'store': [ren(s) for s in case['store']]}
+
+
 def shrink(case):
-    """greedy: drop operations, then on-chain / literal entries, while the oracle still fails"""
+    """greedy: drop events, then on-chain / literal entries, while the oracle still fails"""
     cur = dict(case)
     changed = True
     while changed:
         changed = False
-        for field in ('ops', 'chain', 'lit'):
+        i = 0
+        while i < len(cur['ev']):
+            cand = _drop_dup(cur, i) if cur['ev'][i][0] == 'd' else {**cur, 'ev': cur['ev'][:i] + cur['ev'][i + 1:]}
+            if cand is not None and fails(cand):
+                cur, changed = cand, True
+            else:
+                i += 1
+        for ptr in list(cur['chain']):
             i = 0
-            while i < len(cur[field]):
-                cand = dict(cur)
-                cand[field] = cur[field][:i] + cur[field][i + 1:]
+            while i < len(cur['chain'][ptr]):
+                kvs = cur['chain'][ptr]
+                cand = {**cur, 'chain': {**cur['chain'], ptr: kvs[:i] + kvs[i + 1:]}}
+                if fails(cand):
+                    cur, changed = cand, True
+                else:
+                    i += 1
+        for j, s in enumerate(cur['st']):
+            if s[0] != 'lit':
+                continue
+            i = 0
+            while i < len(cur['st'][j][1]):
+                items = cur['st'][j][1]
+                st = list(cur['st'])
+                st[j] = ('lit', items[:i] + items[i + 1:])
+                cand = {**cur, 'st': st}
                 if fails(cand):
                     cur, changed = cand, True
                 else:
@@ -290,61 +536,136 @@ def shrink(case):
 
 
 def describe(case):
-    return {'key_type': case['kt'], 'keys': [str(k) for k in case['keys']], 'mode': case['mode'], 'id': case['ptr'],
-            'on_chain': case['chain'] if case['mode'] != 'fresh' else [], 'literal': case['lit'] if case['mode'] == 'fresh' else [],
-            'ops': [list(o) for o in case['ops']]}
+    return {'key_type': G.ty_text(case['t']), 'keys': [G.to_text(k) for k in case['keys']], 'value_type': case['vkind'],
+            'parameter': case['par'], 'storage': [list(s) for s in case['st']],
+            'on_chain': {str(p): kvs for p, kvs in case['chain'].items()},
+            'events': [_ev_tok(e) for e in case['ev']], 'stored_slots': case['store']}
 
 
 def short(case):
-    ops = ' '.join(f'{o[0]}{o[1]}' if o[0] in 'gm' else f'{o[0]}{o[1]}={"-" if o[2] is None else o[2]}' for o in case['ops'])
-    where = f"chain={dict(case['chain'])}" if case['mode'] != 'fresh' else f"lit={dict(case['lit'])}"
-    return f"{case['mode']} {where}: {ops}"
+    inits = ([f"par#{case['par']}"] if case['par'] is not None else []) + [
+        f'#{s[1]}' if s[0] == 'id' else 'lit' + json.dumps(dict(s[1])) for s in case['st']]
+    chain = {p: dict(kvs) for p, kvs in case['chain'].items() if kvs}
+    return (f"{G.ty_text(case['t'])}->{case['vkind']} keys {[G.to_text(k) for k in case['keys']]} [{' '.join(inits)}] chain={chain}: "
+            f"{' '.join(_ev_tok(e) for e in case['ev'])} store {case['store']}")
 
 
 # ---------------------------------------------------------------- generation
-def gen_ops(rng, nkeys, n, next_val):
-    ops = []
+PTRS = [5, 17, 99, 4242]          # ids of on-chain maps (the ids a run allocates start at 0: kept apart)
+
+
+def gen_events(rng, nkeys, n, slots0, vcodes, n_dup):
+    ev, nslots = [], slots0
     hot = rng.sample(range(nkeys), k=min(nkeys, 2))
-    for _ in range(n):
+    dup_at = sorted(rng.randrange(0, n + 1) for _ in range(n_dup))
+    seq = itertools.count(1)
+    for i in range(n + 1):
+        while dup_at and dup_at[0] == i:
+            dup_at.pop(0)
+            ev.append(('d', rng.randrange(nslots)))
+            nslots += 1
+        if i == n:
+            break
+        s = rng.randrange(nslots)
         k = rng.choice(hot) if rng.random() < 0.5 else rng.randrange(nkeys)
         r = rng.random()
         if r < 0.2:
-            ops.append(('g', k))
+            ev.append(('g', s, k))
         elif r < 0.3:
-            ops.append(('m', k))
+            ev.append(('m', s, k))
         else:
             kind = 'u' if rng.random() < 0.65 else 'a'
             if rng.random() < 0.4:
-                ops.append((kind, k, None))
+                ev.append((kind, s, k, None))
+            elif vcodes is None:
+                ev.append((kind, s, k, 0 if rng.random() < 0.15 else next(seq)))
             else:
-                ops.append((kind, k, next(next_val)))
-    return ops
+                ev.append((kind, s, k, 0 if rng.random() < 0.3 else rng.randrange(vcodes)))
+    return ev, nslots
 
 
 def random_case(rng, max_len):
-    kt = rng.choice(['nat', 'nat', 'int', 'string'])
-    nkeys = rng.randrange(4, 7)
-    keys = tezos_sorted(kt, rng.sample(UNIVERSES[kt], nkeys))
-    mode = rng.choice(['fresh', 'onchain', 'onchain', 'copy'])
-    vals = itertools.count(1)
-    sub = [i for i in range(nkeys) if rng.random() < 0.5]
-    chain = [(i, 100 + next(vals)) for i in sub]
-    lit = []
-    if mode == 'fresh':
-        lit = [(i, 200 + next(vals)) for i in range(nkeys) if rng.random() < 0.35]
-        if lit and rng.random() < 0.04:              # a literal `check_constraints` must refuse
+    t = rng.choice(KEY_TYPES) if rng.random() < 0.8 else None
+    while t is None or not G.inhabited(t):
+        t = G.gen_type(rng, rng.randrange(0, 3), allow_never=False)
+    keys = gen_keys(rng, t, rng.randrange(3, 7))
+    nkeys = len(keys)
+    vkind = 'nat' if rng.random() < 0.45 else rng.choice(list(VALUE_KINDS))
+    lits = VALUE_KINDS[vkind][1]
+    vcodes = None if lits is None else len(lits)
+    vals = itertools.count(100)
+
+    def code():
+        if vcodes is None:
+            return 0 if rng.random() < 0.15 else next(vals)
+        return 0 if rng.random() < 0.3 else rng.randrange(vcodes)
+
+    def literal():
+        lit = [(i, code()) for i in range(nkeys) if rng.random() < 0.35]
+        if lit and rng.random() < 0.04:                # a literal `check_constraints` must refuse
             lit = lit + [lit[0]] if rng.random() < 0.5 or len(lit) < 2 else list(reversed(lit))
+        return ('lit', lit)
+
+    ptrs = rng.sample(PTRS, 3)
+    r = rng.random()
+    par, st = None, None
+    if r < 0.22:
+        st = [literal()]
+    elif r < 0.44:
+        st = [('id', ptrs[0])]
+    elif r < 0.58:
+        par, st = ptrs[0], [('lit', []) if rng.random() < 0.5 else literal()]
+    elif r < 0.70:
+        par, st = ptrs[0], [('id', ptrs[0] if rng.random() < 0.4 else ptrs[1])]
+    else:                                               # two big maps in one storage
+        a = literal() if rng.random() < 0.5 else ('id', ptrs[1])
+        b = literal() if rng.random() < 0.5 else ('id', ptrs[2])
+        st = [a, b]
+        if rng.random() < 0.35:
+            par = rng.choice(ptrs)
+    chain = {}
+    used = ([par] if par is not None else []) + [s[1] for s in st if s[0] == 'id']
+    for p in set(used):
+        chain[p] = [(i, code()) for i in range(nkeys) if rng.random() < 0.5]
+    if rng.random() < 0.3:                              # another on-chain map the run must never read
+        other = next(p for p in PTRS if p not in used)
+        chain[other] = [(i, code()) for i in range(nkeys) if rng.random() < 0.7]
     n = rng.randrange(0, max_len + 1) if rng.random() < 0.8 else rng.randrange(0, 6)
-    ops = gen_ops(rng, nkeys, n, vals)
-    if rng.random() < 0.5:                            # observe everything at the end
-        ops += [('g', i) for i in range(nkeys)]
-    return {'kt': kt, 'keys': keys, 'mode': mode, 'ptr': rng.choice([0, 5, 17, 4242]), 'chain': chain, 'lit': lit, 'ops': ops}
+    n_dup = 0 if rng.random() < 0.6 else rng.randrange(1, 3)
+    slots0 = (1 if par is not None else 0) + len(st)
+    ev, nslots = gen_events(rng, nkeys, n, slots0, vcodes, n_dup)
+    case = {'t': t, 'keys': keys, 'vkind': vkind, 'par': par, 'st': st, 'chain': chain, 'ev': ev, 'store': []}
+    rt = roots(case)
+    # stored slots: distinct, and never two descendants of the same on-chain id in the storage (both would `update` one id)
+    for _ in range(40):
+        store = rng.sample(range(nslots), len(st))
+        idroots = [rt[s] for s in store if init_kind(case, rt[s])[0] == 'id']
+        if len(set(idroots)) == len(idroots):
+            break
+    else:
+        store = list(range(slots0 - len(st), slots0))
+    case['store'] = store
+    if rng.random() < 0.5:                              # observe everything at the end
+        case['ev'] = ev + [('g', s, i) for s in store for i in range(nkeys)]
+    return case
+
+
+def simple(t, keys, vkind, mode, ptr, chain, lit, ops):
+    """one big map: mode fresh / onchain / copy (the shapes of the first version of this check)"""
+    if mode == 'fresh':
+        par, st, slot = None, [('lit', lit)], 0
+    elif mode == 'onchain':
+        par, st, slot = None, [('id', ptr)], 0
+    else:
+        par, st, slot = ptr, [('lit', [])], 0
+    ev = [(o[0], slot) + tuple(o[1:]) for o in ops]
+    return {'t': t, 'keys': [('int', k) if isinstance(k, int) else ('str', k) for k in keys], 'vkind': vkind, 'par': par, 'st': st,
+            'chain': {ptr: chain} if mode != 'fresh' else {}, 'ev': ev, 'store': [slot]}
 
 
 def exhaustive_cases(max_len):
-    """3 keys, all 8 on-chain subsets, every history of GET_AND_UPDATE k None / Some (6 letters) up to max_len,
+    """3 nat keys, all 8 on-chain subsets, every history of GET_AND_UPDATE k None / Some (6 letters) up to max_len,
     followed by GET and MEM of every key"""
-    keys = [3, 8, 200]
     tail = [('g', i) for i in range(3)] + [('m', i) for i in range(3)]
     letters = [(k, s) for k in range(3) for s in (False, True)]
     for bits in range(8):
@@ -352,71 +673,138 @@ def exhaustive_cases(max_len):
         for ln in range(max_len + 1):
             for word in itertools.product(letters, repeat=ln):
                 ops = [('a', k, (10 + n) if s else None) for n, (k, s) in enumerate(word)]
-                yield {'kt': 'nat', 'keys': keys, 'mode': 'onchain', 'ptr': 5, 'chain': chain, 'lit': [], 'ops': ops + tail}
+                yield simple('nat', [3, 8, 200], 'nat', 'onchain', 5, chain, [], ops + tail)
 
 
-REGRESSIONS = [
-    # update iterates self: a removed key comes back as (k, None)
-    {'kt': 'nat', 'keys': [1, 2, 3], 'mode': 'fresh', 'ptr': 0, 'chain': [], 'lit': [],
-     'ops': [('u', 0, 10), ('u', 0, None), ('u', 1, 20), ('u', 1, 21), ('u', 0, 11), ('g', 0)]},
-    # a key that exists on chain only is updated: the new value must become a local entry
-    {'kt': 'nat', 'keys': [1, 2, 3], 'mode': 'onchain', 'ptr': 5, 'chain': [(1, 200)], 'lit': [],
-     'ops': [('u', 1, 7), ('g', 1)]},
-    {'kt': 'string', 'keys': ['a', 'b', 'c'], 'mode': 'copy', 'ptr': 5, 'chain': [(0, 1), (2, 3)], 'lit': [],
-     'ops': [('a', 0, None), ('a', 0, 9), ('u', 2, None), ('m', 2), ('g', 0), ('g', 1)]},
-]
+def regressions():
+    pii = ('pair', 'int', 'int')
+    pk = [('pair', ('int', 1), ('int', 5)), ('pair', ('int', 2), ('int', 3)), ('pair', ('int', 2), ('int', 4))]
+    kt = ('addr', 4, bytes(range(20)), '')
+    return [
+        # update iterates self: a removed key comes back as (k, None)
+        simple('nat', [1, 2, 3], 'nat', 'fresh', 0, [], [],
+               [('u', 0, 10), ('u', 0, None), ('u', 1, 20), ('u', 1, 21), ('u', 0, 11), ('g', 0)]),
+        # a key that exists on chain only is updated: the new value must become a local entry
+        simple('nat', [1, 2, 3], 'nat', 'onchain', 5, [(1, 200)], [], [('u', 1, 7), ('g', 1)]),
+        simple('string', ['a', 'b', 'c'], 'nat', 'copy', 5, [(0, 1), (2, 3)], [],
+               [('a', 0, None), ('a', 0, 9), ('u', 2, None), ('m', 2), ('g', 0), ('g', 1)]),
+        # pair keys: the first component decides (the pinned PairType.__lt__ sorted these wrongly), nested Pair in the hash
+        {'t': pii, 'keys': pk, 'vkind': 'nat', 'par': None, 'st': [('lit', [(0, 1), (2, 3)])], 'chain': {},
+         'ev': [('u', 0, 1, 9), ('u', 0, 0, None), ('g', 0, 1), ('g', 0, 0), ('a', 0, 2, 0)], 'store': [0]},
+        # an empty map as VALUE (falsy): stored, read, emitted and read back
+        {'t': 'nat', 'keys': [('int', 1), ('int', 2)], 'vkind': 'map nat nat', 'par': None, 'st': [('id', 5)], 'chain': {5: [(0, 0), (1, 2)]},
+         'ev': [('g', 0, 0), ('m', 0, 0), ('u', 0, 1, 0), ('a', 0, 1, None), ('u', 0, 0, 0)], 'store': [0]},
+        # DUP then diverging updates; the duplicate is stored, the original dropped
+        {'t': 'string', 'keys': [('str', 'a'), ('str', 'b')], 'vkind': 'string', 'par': None, 'st': [('id', 17)], 'chain': {17: [(0, 1)]},
+         'ev': [('u', 0, 1, 0), ('d', 0), ('u', 0, 0, None), ('u', 1, 0, 2), ('g', 0, 0), ('g', 1, 0), ('g', 1, 1)], 'store': [1]},
+        # the same on-chain map in the parameter (copy) and in the storage (update); two big maps in the storage
+        {'t': 'address', 'keys': [('addr', 0, bytes(20), ''), ('addr', 4, bytes(range(20)), 'a'), kt], 'vkind': 'bool', 'par': 5,
+         'st': [('id', 5), ('lit', [(1, 0)])], 'chain': {5: [(2, 1)]},
+         'ev': [('u', 0, 2, None), ('g', 1, 2), ('u', 2, 2, 0), ('a', 1, 1, 1), ('m', 0, 2)], 'store': [1, 0]},
+    ]
+
+
+def check_packs(ctx, packs, model):
+    from pytezos.michelson.types.base import MichelsonType
+    cls = {}
+    reported = 0
+    for i, (t, k) in enumerate(packs):
+        if t not in cls:
+            cls[t] = MichelsonType.match(G.ty_expr(t))
+        try:
+            got = cls[t].from_micheline_value(G.to_micheline(k)).pack(legacy=True).hex()
+        except Exception as ex:      # noqa: BLE001
+            got = f'raise {type(ex).__name__}'
+        ctx.case({'pack': G.ty_text(t), 'key': G.to_text(k)}, nontrivial=not isinstance(t, str))
+        ctx.count('pack_key_type', t if isinstance(t, str) else t[0])
+        want = (b'\x05' + forge_key(k)).hex()
+        if got != want and reported < 10:
+            reported += 1
+            ctx.violation(f'key_pack: {G.ty_text(t)} {G.to_text(k)}'[:300],
+                          f'pack(legacy=True) of the key is {got}, the legacy form (nested Pair, optimized leaves) is {want}',
+                          {'key_type': G.ty_text(t), 'key': G.to_text(k), 'observed': got, 'expected': want})
+        if model is not None and model[i] != got:
+            ctx.mismatch('pack', {'key_type': G.ty_text(t), 'key': G.to_text(k)}, got, model[i])
 
 
 def run(ctx):
-    ctx.prepare_lean(extract.generate(PROP))
+    status = extract.generate(PROP)
+    # the typed-key theorems rest on the C03 mirror of __eq__ / __lt__: its tables are re-read from the source as well
+    # (listed as `dep:C03 …`: obligations of the dependency, re-checked here because a comparison method that changes shape
+    # re-opens `C15.key_order_strictTotal` and with it every `typed_*` theorem)
+    status.update({f'dep:C03 {k}': v for k, v in extract.generate('C03').items()})
+    # … and `Impl.BigMap.packLegacy` writes bytes with C05's binary Micheline writer (primitive tags read from the source)
+    status.update({f'dep:C05 {k}': v for k, v in extract.generate('C05').items()})
+    ctx.prepare_lean(status)
     quick = ctx.tier == 'quick'
     max_len = 25 if quick else 200
     ctx.extra['rule'] = (
-        'random histories (length <= %d) of GET/MEM/UPDATE/GET_AND_UPDATE over 4-6 keys of type nat/int/string, a random '
-        'subset of the keys on chain, map entering as fresh literal / on-chain id / copied parameter, each run through '
-        'Interpreter.run_code with a stub shell; plus every GET_AND_UPDATE history up to length %d over 3 keys x all 8 '
-        'on-chain subsets, fully observed at the end; non-trivial = at least one mutation and (some key on chain or a key '
-        'mutated twice)' % (max_len, 3 if quick else 5))
+        'one Interpreter.run_code call per case with a stub shell; key type from a list of 30 comparable types (nat, int, string, bytes, '
+        'timestamp, address, key_hash, key, pair, nested pairs, option, or, …) or random (nesting <= 2), universe of 3-6 near-equal keys '
+        '(gen_c03.near); value type nat / string / bytes / bool / unit / option / list / set / map with code 0 = the falsy value; the big maps '
+        'enter as storage literal (alloc), storage id (update) or parameter id (copy), one or two big maps in the storage, random on-chain '
+        'subset per id plus an unrelated on-chain map; history (length <= %d) of GET/MEM/UPDATE/GET_AND_UPDATE addressed to the slots with '
+        '0-2 DUPs after which the copies diverge; random choice of the slots that are stored; plus every GET_AND_UPDATE history up to '
+        'length %d over 3 nat keys x all 8 on-chain subsets, fully observed at the end; non-trivial = at least one mutation and (some key '
+        'on chain or a key mutated twice)' % (max_len, 3 if quick else 5))
     ctx.assumptions += [
         'the node is a stub: get_big_map_value sees exactly the given (id, key hash) -> value table',
-        'key types nat / int / string, values nat; ordering of other key types is C03/C14',
-        "a `copy` entry does not name its source in the emitted JSON (`pass  # TODO` in aggregate_lazy_diff); the oracle applies it to the map the parameter named",
-        'Blake2b / SHA-256 are hashlib (abstract function in the Lean theorems)',
+        'the order of the keys is the one C03 establishes (C03.tval_strictTotal, used by the typed_* theorems); values are opaque codes in the model',
+        "a `copy` entry does not name its source in the emitted JSON (`pass  # TODO` in aggregate_lazy_diff); the oracle applies it to the on-chain contents of the map the parameter named; "
+        'every entry is applied to the ORIGINAL on-chain contents of its source (also when the same id is copied and updated in one run)',
+        'two descendants (DUP) of the same on-chain id are never both stored (both would emit `update` for one id; outside the property)',
+        'Blake2b / SHA-256 are hashlib (abstract function in the Lean theorems); the legacy PACK of a key is recomputed by a local Micheline forger',
     ]
-    cases = list(REGRESSIONS)
-    n_random = 1500 if quick else 6000
+    cases = regressions()
+    n_random = 1800 if quick else 6000
     for _ in range(n_random):
-        cases.append(random_case(ctx.rng, max_len if ctx.rng.random() < (0.5 if quick else 0.15) else 12))
+        cases.append(random_case(ctx.rng, max_len if ctx.rng.random() < (0.4 if quick else 0.15) else 12))
     n_ex = 0
     for c in exhaustive_cases(3 if quick else 5):
         cases.append(c)
         n_ex += 1
     ctx.extra['exhaustive_subspace'] = {'cases': n_ex, 'keys': 3, 'on_chain_subsets': 8, 'max_len': 3 if quick else 5}
-    model = ctx.model([model_line(c) for c in cases])
+    # second stream: the bytes that are hashed for a key (`key.pack(legacy=True)`), every key of every random universe once
+    packs, seen_keys = [], set()
+    for c in cases[:len(cases) - n_ex]:
+        for k in c['keys']:
+            if (c['t'], k) not in seen_keys:
+                seen_keys.add((c['t'], k))
+                packs.append((c['t'], k))
+    lines = [model_line(c) for c in cases] + ['pack ' + ' '.join(G.ty_tokens(t) + G.val_tokens(k)) for t, k in packs]
+    model_all = ctx.model(lines)
+    model = None if model_all is None else model_all[:len(cases)]
+    check_packs(ctx, packs, None if model_all is None else model_all[len(cases):])
     shrunk = 0
     for i, case in enumerate(cases):
         res = run_impl(case)
-        muts = [o for o in case['ops'] if o[0] in 'ua']
-        ks = [o[1] for o in muts]
-        nontrivial = bool(muts) and ((case['mode'] != 'fresh' and bool(case['chain'])) or len(set(ks)) < len(ks))
+        muts = [e for e in case['ev'] if e[0] in 'ua']
+        ks = [(e[1], e[2]) for e in muts]
+        on_chain = any(kvs for p, kvs in case['chain'].items())
+        nontrivial = bool(muts) and (on_chain or len(set(ks)) < len(ks))
         ctx.case(describe(case), nontrivial=nontrivial)
-        ctx.count('mode', case['mode'])
-        ctx.count('key_type', case['kt'])
-        ctx.count('history_len', min(len(case['ops']) // 10 * 10, 200))
-        ctx.count('on_chain_keys', len(case['chain']) if case['mode'] != 'fresh' else 0)
+        fam = case['t'] if isinstance(case['t'], str) else case['t'][0]
+        layout = ('par+' if case['par'] is not None else '') + '+'.join(s[0] for s in case['st'])
+        ctx.count('layout', layout)
+        ctx.count('key_type', fam)
+        ctx.count('value_type', case['vkind'])
+        ctx.count('history_len', min(len(case['ev']) // 10 * 10, 200))
+        ctx.count('dups', sum(1 for e in case['ev'] if e[0] == 'd'))
+        ctx.count('stored_slot_is_duplicate', any(s >= n_init(case) for s in case['store']))
+        ctx.count('on_chain_keys', sum(len(kvs) for kvs in case['chain'].values()))
         ctx.count('result', 'rejected' if res['error'] is not None else 'ok')
-        chain_only = {k for k, _ in case['chain']} if case['mode'] != 'fresh' else set()
-        ctx.count('mutates_on_chain_key', any(o[1] in chain_only for o in muts))
+        ctx.count('falsy_value_written', any(e[0] in 'ua' and e[3] == 0 for e in case['ev']))
         bad = oracle(case, res)
         if bad is not None:
+            topic = 'merge_lazy_diff' if 'merge_lazy_diff' in bad else 'key_hash' if 'key_hash' in bad or 'key hash' in bad else 'history'
             if shrunk < 25:
                 small = shrink(case)
                 shrunk += 1
                 what = oracle(small, run_impl(small))
-                ctx.violation(short(small), f'{short(small)} -> {what}', {'case': describe(small), 'what': what, 'from': describe(case)})
+                ctx.violation(f'{topic}: {short(small)}'[:400], what, {'case': describe(small), 'what': what, 'from': describe(case)})
             else:
                 ctx.count('violations_not_shrunk', 1)
-                ctx.violation('unshrunk: ' + short(case)[:200], bad, {'case': describe(case), 'what': bad})
+                ctx.violation(f'{topic} (unshrunk): {short(case)}'[:300], bad, {'case': describe(case), 'what': bad})
         if model is not None:
             got = impl_line(res)
             if got != model[i]:
